@@ -59,12 +59,33 @@ def coq_case(c):
                              "(%s)" % coq_tree(c["tree"]) if c.get("tree") is not None else "(Leaf 0 0)")
 
 
+def gen_shared_abs(rng, D):
+    """a constant used as a factor inside an absolute value AND outside it: |C*u| op C*v  (the sign of C matters)"""
+    s = [[1, 0, 0], [0, rng.randrange(D), 0], rng.choice([[0, rng.randrange(D), 0], [-1, rng.choice([1, 2, 3]), 0]])]
+    s[1][2], s[2][2] = s[1][1], s[2][1]
+    s.append(rng.choice([[4, 0, 1], [4, 1, 0]]))        # C*u
+    if rng.random() < 0.3:
+        s.append([4, len(s) - 1, 1])                    # C*u*u
+    s.append([11, len(s) - 1, len(s) - 1])              # |...|
+    a = len(s) - 1
+    s.append(rng.choice([[4, 0, 2], [4, 2, 0], [2, 0, 2]]))     # C*v or C+v
+    b = len(s) - 1
+    s.append([rng.choice([2, 3, 4]), a, b] if rng.random() < 0.5 else [rng.choice([2, 3]), b, a])
+    if rng.random() < 0.3:
+        s.append([rng.choice([11, 2, 4]), len(s) - 1, rng.randrange(len(s))])
+    return s
+
+
 def gen_case(rng):
     k = rng.random()
     D = rng.randint(1, 3)
-    if k < 0.35:      # polynomial with constants
+    if k < 0.27:      # polynomial with constants
         s = c01.gen_stack(rng, rng.randint(2, 12), D, 3, [2, 3, 4, 4, 2], int_values=(0, 1, 2, 3, -1))
         kind = "poly"
+    elif k < 0.35:    # polynomial with constants and absolute values: a constant used inside and outside an |.| keeps its sign
+        s = c01.gen_stack(rng, rng.randint(3, 10), D, 2, [2, 3, 4, 4, 11, 11], int_values=(1, 2, -1)) if rng.random() < 0.5 \
+            else gen_shared_abs(rng, D)
+        kind = "abspoly"
     elif k < 0.6:     # constant free, no powers
         s = c01.gen_stack(rng, rng.randint(2, 12), D, 0, [2, 3, 4, 5, 6, 7, 8, 9, 11, 12, 14, 15, 2, 3, 4], int_values=(0, 1, 2, 3, -1, -2))
         kind = "nopow"
@@ -298,7 +319,7 @@ def impl_main(payload):
                 j = int(np.argmax(np.abs(y1 - y0) * sel))
                 viol.append("constant-free stack %r evaluates to %r at x=%r, its simplification %r to %r"
                             % (c["stack"], float(y0[j]), x[j].tolist(), outl, float(y1[j])))
-        elif c["kind"] == "poly" and L1 > 0:
+        elif c["kind"] in ("poly", "abspoly") and L1 > 0:
             # some constant vector of the simplified equation must reproduce the original at every point
             stats["fits"] += 1
             xs = np.array([[rng.uniform(-2.0, 2.0) for _ in range(D)] for _ in range(30)])
@@ -308,7 +329,7 @@ def impl_main(payload):
                 g1.set_local_optimization_params(list(cv))
                 return np.asarray(g1.evaluate_equation_at(xs), dtype=float).ravel() - y
 
-            base = set(c0) | {1.0, -1.0, 0.0, 2.0}
+            base = set(c0) | {1.0, -1.0, 0.0, 2.0} | ({abs(v) for v in c0} if c["kind"] == "abspoly" else set())
             cand = set(base)
             for a, b in itertools.product(list(base), repeat=2):
                 cand |= {a + b, a * b, a - b}
@@ -337,10 +358,24 @@ def impl_main(payload):
                         found = True
                         stats["fit_lsq"] += 1
                         break
+                if not found and c["kind"] == "abspoly":
+                    # |.| is not smooth in the constants: a second, derivative-free pass before anything is reported
+                    from scipy.optimize import minimize
+                    for s0 in starts[:40]:
+                        try:
+                            r = minimize(lambda cv: float(np.sum(resid(cv) ** 2)), s0, method="Nelder-Mead",
+                                         options=dict(xatol=1e-13, fatol=1e-26, maxiter=4000, maxfev=4000))
+                            best = min(best, float(np.max(np.abs(resid(r.x)))))
+                        except Exception:  # noqa
+                            pass
+                        if best <= 1e-7 * scale:
+                            found = True
+                            stats["fit_lsq"] += 1
+                            break
                 if not found:
                     viol.append("polynomial stack %r with constants %r: no constant vector makes its simplification %r (%d constants) agree "
                                 "(best maximal deviation %.3g over 30 points)" % (c["stack"], c0, outl, L1, best))
-        elif c["kind"] == "poly" and L1 == 0:
+        elif c["kind"] in ("poly", "abspoly") and L1 == 0:
             y1 = np.asarray(g1.evaluate_equation_at(x), dtype=float).ravel()
             if not np.allclose(y1, y0, rtol=1e-9, atol=1e-9):
                 viol.append("polynomial stack %r with constants %r simplifies to the constant-free %r, which differs" % (c["stack"], c0, outl))
@@ -384,8 +419,30 @@ def check(rep, proof):
         "base is positive and no denominator vanishes); floating-point rounding is not modelled",
         "termination is tested (10 s alarm); the model's recursions take fuel",
     ]
+    widened = None
+    if bad and not res["viol"]:
+        # the correspondence is broken: look harder for a concrete failing input among stacks WITH constants over the operators
+        # of the disagreeing cases (for + - * |.| the constant-fitting oracle is reliable)
+        ops_bad = {row[0] for b in bad if not isinstance(b, tuple) for row in (ccases[b].get("stack") or []) if row[0] >= 2}
+        rep.coverage["widened_search_ops"] = sorted(ops_bad)
+        if ops_bad and ops_bad <= {2, 3, 4, 11}:
+            rng2 = random.Random(rep.seed + 1)
+            pool = [2, 3, 4, 4] + ([11, 11, 11] if 11 in ops_bad else [])
+            extra = []
+            for _ in range(1500):
+                D2 = rng2.randint(1, 3)
+                st2 = gen_shared_abs(rng2, D2) if (11 in ops_bad and rng2.random() < 0.5) else \
+                    c01.gen_stack(rng2, rng2.randint(3, 9), D2, rng2.choice([1, 2]), pool, int_values=(1, 2, -1))
+                extra.append(dict(stack=st2, D=D2, kind="abspoly" if 11 in ops_bad else "poly"))
+            rc2, res2, out2, _ = vlib.run_impl("c03", dict(cases=extra, seed=rep.seed + 1), timeout=3000)
+            if res2 is not None and res2["viol"]:
+                widened = res2["viol"]
     if res["viol"]:
         rep.violation(res["viol"][0][:700], dict(oracle=res["viol"][:5], how="tools/props/c03.py impl_main (seed %d)" % rep.seed))
+    elif widened:
+        rep.violation(widened[0][:700], dict(oracle=widened[:5], disagreements=len(bad),
+                                             how="widened search after the correspondence broke: tools/props/c03.py impl_main on 1500 "
+                                                 "stacks with constants over the operators of the disagreeing cases (seed %d)" % (rep.seed + 1)))
     elif bad:
         first = bad[0]
         j = None if isinstance(first, tuple) else first
